@@ -758,10 +758,10 @@ EVALGRID_C04 = ["C04Grid." + n for n in [
     "grid_homogeneous_partial", "gridAlgT_real", "track_sizing_joint_homogeneous",
     "explicit_grid_size_joint_homogeneous", "grid_homogeneous_joint", "grid_scaled_run",
     "grid_homogeneous_run_partial", "grid_homogeneous_run_iff",
-    "witness_gscale", "witness_values", "grid_not_homogeneous", "not_algsHomogeneous_grid",
+    "witness_values", "grid_not_homogeneous", "not_algsHomogeneous_grid",
     "witness_side_condition", "witness2_values", "grid_not_homogeneous_autorepeat", "witness2_side_condition",
-    "scale_ignores_grid", "scale_misses_grid_tracks", "exGrid_fixed", "inGrid_run", "inGrid_constFree",
-    "witnesses_not_constFree"]] + [
+    "scale_scales_grid", "gscale_eq_scale", "scale_scales_grid_tracks", "exGrid_fixed", "inGrid_run",
+    "inGrid_constFree", "witnesses_not_constFree"]] + [
     "C04.gridAlgG_scale", "C04.mkCtx_scale", "C04.computeExplicit_scale", "C04.initializeGridTracks_scale",
     "C04.alignTracks_scale", "C04.gridFinish_sim", "C04.trackSizing_fixed_hom", "C04.initializeGridTracks_fixed",
     "C04.trackSizingT_hom", "C04.computeExplicitT_scale", "C04.gridAlgT_scale", "C04.resolveIntrinsicTrackSizesT_sim",
@@ -769,6 +769,20 @@ EVALGRID_C04 = ["C04Grid." + n for n in [
     "C04.distributeSpaceUpToLimitsT_scale", "C04.findSizeOfFr_scale",
     "GridScale.gridAlgG_eq", "GridKernel.gridAlgK_eq", "GridTheta.trackSizingAlgorithmT_eq",
     "GridTheta.computeExplicitT_eq", "GridTheta.gridAlgT_real", "GridTheta.gridAlgTK_eq"]
+
+# the tree level for ALL trees (block, flexbox, grid, leaves): Props/C04Tree.lean
+C04TREE_MODULES = ["TaffyVerif.Props.C04Tree"]
+C04TREE = ["C04Tree." + n for n in [
+    "algsT_real", "realAlgs_eq", "thresholds_rat", "tree_homogeneous_rel", "tree_homogeneous_of_rel",
+    "algsHomRel_joint", "tree_homogeneous_joint_all_trees_with", "tree_homogeneous_joint_all_trees",
+    "tree_homogeneous_real_constants", "tree_homogeneous_real_constants_fresh", "gridFixedS_gridFixed",
+    "gridFixedS_of_no_autorepeat", "gridFixedTreeB_iff", "NoGrid_GridFixedTree", "GridFixedTree_GridNodes",
+    "algsHomRel_real_partial", "tree_homogeneous_all_trees_partial", "tree_homogeneous_all_trees_partial_fresh",
+    "realAlgs_not_homogeneous", "realAlgsK_eq", "algsTK_eq", "exGrid_fixedS", "exTree_fixed", "exTree_not_noGrid",
+    "exTree_layout", "exTree_layout_times_4", "exTree_layout_div_4", "wTree_not_fixed", "wTree_layout",
+    "wTree_layout_times_16_joint", "wTree_layout_times_16_real", "tree_not_homogeneous_real"]] + [
+    "C04.evalNodeWith_scale_rel", "C04.computeOf_scale_rel", "C04.runProg_scale_rel", "C04.GridNodes_true",
+    "C04.ExplicitNoPx_static", "C04.findAutoRepetition_mem", "C04.trackDefiniteValue_fixed"]
 
 _PAIRS_TRUSTED = [
     "the whole-tree clause is NOT a theorem here: it is checked by sampling tree pairs on the real implementation "
@@ -862,7 +876,7 @@ PROPS["C17"] = {
 }
 
 PROPS["C04"] = {
-    "modules": ['TaffyVerif.Props.C04'] + EVALFLEX_C04_MODULES + EVALGRID_C04_MODULES, "theorems": EVALFLEX_C04 + EVALGRID_C04 + ['C04.num_homogeneous', 'C04.resolve_homogeneous', 'C04.aspect_ratio_homogeneous', 'C04.clamp_homogeneous', 'C04.margin_set_homogeneous', 'C04.measure_homogeneous', 'C04.leaf_homogeneous', 'C04.leaf_homogeneous_ctx', 'C04.root_homogeneous', 'C04.abs_homogeneous', 'C04.abs_call_sites_homogeneous', 'C04.flex_line_homogeneous', 'C04.block_homogeneous', 'C04.flow_loop_homogeneous', 'C04.place_item_homogeneous', 'C04.tree_homogeneous', 'C04.tree_homogeneous_fresh', 'C04.tree_homogeneous_evalNode', 'C04.leafAlg_homogeneous', 'C04.algs_homogeneous_concrete', 'C04.tree_homogeneous_concrete', 'C04.cache_roughly_equal_homogeneous', 'C04.cache_roughly_equal_not_homogeneous'],
+    "modules": ['TaffyVerif.Props.C04'] + EVALFLEX_C04_MODULES + EVALGRID_C04_MODULES + C04TREE_MODULES, "theorems": EVALFLEX_C04 + EVALGRID_C04 + C04TREE + ['C04.num_homogeneous', 'C04.resolve_homogeneous', 'C04.aspect_ratio_homogeneous', 'C04.clamp_homogeneous', 'C04.margin_set_homogeneous', 'C04.measure_homogeneous', 'C04.leaf_homogeneous', 'C04.leaf_homogeneous_ctx', 'C04.root_homogeneous', 'C04.abs_homogeneous', 'C04.abs_call_sites_homogeneous', 'C04.flex_line_homogeneous', 'C04.block_homogeneous', 'C04.flow_loop_homogeneous', 'C04.place_item_homogeneous', 'C04.tree_homogeneous', 'C04.tree_homogeneous_fresh', 'C04.tree_homogeneous_evalNode', 'C04.leafAlg_homogeneous', 'C04.algs_homogeneous_concrete', 'C04.tree_homogeneous_concrete', 'C04.cache_roughly_equal_homogeneous', 'C04.cache_roughly_equal_not_homogeneous'],
     "harness": "C04", "driver": "C04", "monitor": False, "extra_ties": [("EVAL", "EVAL"), ("FLEX", "FLEX"), ("GRID", "GRID")], "extra_tie_cases": 4000,
     "rule": "style trees of 1-12 nodes, depth <= 4, flex/grid/block mixed (treegen::gen_tree with every feature on: hidden, "
             "absolute, percentages, aspect ratios, content-box, auto/negative margins, scroll containers, wrap/fixed measure "
@@ -891,10 +905,10 @@ PROPS["C04"] = {
                     "differences from redistributed f32 rounding dust; macroscopic only for sub-0.01px free space)",
                     "a tree on which both layouts panic is skipped (counted as panic:both; one such input class is a C03 matter: "
                     "repeat(auto-fit, ...) columns in a grid whose only children are display:none)"],
-    "level_text": "Theorems at exact rationals, for every k > 0: every modelled function commutes with scaling all lengths by k — length/percentage resolution, the five MaybeMath clamp families, aspect-ratio transfer, margin sets, the measure functions, compute_leaf_layout (output and measure-call arguments), compute_root_layout's parts, the three absolute-positioning copies and their call sites, the flex line functions (freeze loop, justification, positions — no side condition needed), and the WHOLE block algorithm as an interaction program; and tree_homogeneous: the cache-free tree-level evaluator maps the scaled tree/state/input to the scaled output and scaled layouts whenever the container algorithms are homogeneous, which is proved for leaf, block and — unconditionally, since the repair of the scaled flex shrink factor in determine_container_main_size — the WHOLE flexbox algorithm as an interaction program (C04Flex.flex_homogeneous), so trees of block containers, flexbox containers and leaves are homogeneous outright, whatever the grid algorithm (C04Flex.tree_homogeneous_block_flex_leaf_trees). The cache's ε comparison is proved NOT homogeneous (witness) — hence the statement on cache-free evaluation. On the real code the clause is sampled on tree pairs with power-of-two factors, bit-exact.",
-    "level_note": 'flexbox.rs as a whole program (Model/Flex.lean) is proved homogeneous UNCONDITIONALLY (C04Flex.flex_homogeneous: for every k > 0, style, child styles and input the program of the scaled container is the scaled program; pieces: C04Flex.flex_prefix_homogeneous, flex_main_size_homogeneous, flex_after_main_homogeneous; item level: item_fraction_homogeneous, item_target_homogeneous; runs: flex_homogeneous_run), hence AlgsHomogeneous for leaf+block+flex with only the grid hypothesis (C04Flex.algsHomogeneous_flex, tree_homogeneous_flex_algs) and the tree theorem with no hypothesis on trees of block containers, flexbox containers and leaves (C04Flex.tree_homogeneous_block_flex_leaf_trees on NoGrid trees, cache-free evaluator). This holds of the REPAIRED code: flexbox.rs determine_container_main_size now computes the max-content flex fraction of a shrinking item as diff / (f32_max(1.0, flex_shrink) * inner_flex_basis) (0 when that scaled shrink factor is not positive) instead of diff / f32_max(1.0, flex_shrink * inner_flex_basis) — the former finding c04-flex-shrink-floor-at-one, whose witness is kept as a regression example (now homogeneous) and whose refutation C04Flex.flex_not_homogeneous no longer holds. The WHOLE grid program (Model/Grid.lean, tied by the GRID correspondence) is treated in Props/EvalGridScale.lean: the unconditional statement is refuted on two witnesses replayed on the real code — C04Grid.grid_not_homogeneous (THRESHOLD = 0.01 of distribute_space_up_to_limits, known finding c04-grid-track-threshold) and C04Grid.grid_not_homogeneous_autorepeat (compute_explicit_grid_size_in_axis counts a zero-size auto-repetition as 1px wide, as the CSS specification suggests; known finding c04-auto-repeat-one-px-floor); the whole program with its three absolute constants (the 1px substitute, THRESHOLD 0.01, THRESHOLD 0.000001) taken as parameters (GridTheta.gridAlgT, equal to the grid program at the real constants: C04Grid.gridAlgT_real) is UNCONDITIONALLY homogeneous jointly in lengths and constants (C04Grid.grid_homogeneous_joint), so these are the only absolute lengths in the grid algorithm; the run of the scaled container is the scaled run IF AND ONLY IF the original run does not change when the three constants are divided by k (C04Grid.grid_homogeneous_run_iff, decidable condition ConstFree); statically: homogeneous on containers all of whose tracks are fixed-size (C04Grid.grid_homogeneous_partial). partial: Scalable (Style Rat) of Model/Scale.lean does not scale Style.grid (C04Grid.scale_ignores_grid), the grid theorems use C04.gscale, and the tree theorem is therefore not lifted to trees with grid containers. Known findings: grid THRESHOLD constants; 1px floor of zero-size auto-repetitions. No theorem relates f32 to rational arithmetic; with power-of-two factors every f32 operation commutes with the scaling exactly. Axioms: propext, Classical.choice, Quot.sound.',
+    "level_text": "Theorems at exact rationals, for every k > 0: every modelled function commutes with scaling all lengths by k — length/percentage resolution, the five MaybeMath clamp families, aspect-ratio transfer, margin sets, the measure functions, compute_leaf_layout (output and measure-call arguments), compute_root_layout's parts, the three absolute-positioning copies and their call sites, the flex line functions (freeze loop, justification, positions — no side condition needed), and the WHOLE block algorithm as an interaction program; and tree_homogeneous: the cache-free tree-level evaluator maps the scaled tree/state/input to the scaled output and scaled layouts whenever the container algorithms are homogeneous, which is proved for leaf, block and — unconditionally, since the repair of the scaled flex shrink factor in determine_container_main_size — the WHOLE flexbox algorithm as an interaction program (C04Flex.flex_homogeneous), so trees of block containers, flexbox containers and leaves are homogeneous outright, whatever the grid algorithm (C04Flex.tree_homogeneous_block_flex_leaf_trees). scale multiplies the lengths inside the grid track lists too, and the tree theorem is lifted to ALL trees in the two strongest true forms (Props/C04Tree.lean): unconditionally for every tree when the three absolute constants of the grid algorithm are scaled along with the lengths (C04Tree.tree_homogeneous_joint_all_trees; at the real constants C04Tree.tree_homogeneous_real_constants), and for the real algorithms on every tree whose grid containers have fixed-size tracks (C04Tree.tree_homogeneous_all_trees_partial); without that hypothesis the real-algorithm statement is refuted at the tree level (C04Tree.tree_not_homogeneous_real). The cache's ε comparison is proved NOT homogeneous (witness) — hence the statement on cache-free evaluation. On the real code the clause is sampled on tree pairs with power-of-two factors, bit-exact.",
+    "level_note": 'flexbox.rs as a whole program (Model/Flex.lean) is proved homogeneous UNCONDITIONALLY (C04Flex.flex_homogeneous: for every k > 0, style, child styles and input the program of the scaled container is the scaled program; pieces: C04Flex.flex_prefix_homogeneous, flex_main_size_homogeneous, flex_after_main_homogeneous; item level: item_fraction_homogeneous, item_target_homogeneous; runs: flex_homogeneous_run), hence AlgsHomogeneous for leaf+block+flex with only the grid hypothesis (C04Flex.algsHomogeneous_flex, tree_homogeneous_flex_algs) and the tree theorem with no hypothesis on trees of block containers, flexbox containers and leaves (C04Flex.tree_homogeneous_block_flex_leaf_trees on NoGrid trees, cache-free evaluator). This holds of the REPAIRED code: flexbox.rs determine_container_main_size now computes the max-content flex fraction of a shrinking item as diff / (f32_max(1.0, flex_shrink) * inner_flex_basis) (0 when that scaled shrink factor is not positive) instead of diff / f32_max(1.0, flex_shrink * inner_flex_basis) — the former finding c04-flex-shrink-floor-at-one, whose witness is kept as a regression example (now homogeneous) and whose refutation C04Flex.flex_not_homogeneous no longer holds. The WHOLE grid program (Model/Grid.lean, tied by the GRID correspondence) is treated in Props/EvalGridScale.lean: the unconditional statement is refuted on two witnesses replayed on the real code — C04Grid.grid_not_homogeneous (THRESHOLD = 0.01 of distribute_space_up_to_limits, known finding c04-grid-track-threshold) and C04Grid.grid_not_homogeneous_autorepeat (compute_explicit_grid_size_in_axis counts a zero-size auto-repetition as 1px wide, as the CSS specification suggests; known finding c04-auto-repeat-one-px-floor); the whole program with its three absolute constants (the 1px substitute, THRESHOLD 0.01, THRESHOLD 0.000001) taken as parameters (GridTheta.gridAlgT, equal to the grid program at the real constants: C04Grid.gridAlgT_real) is UNCONDITIONALLY homogeneous jointly in lengths and constants (C04Grid.grid_homogeneous_joint), so these are the only absolute lengths in the grid algorithm; the run of the scaled container is the scaled run IF AND ONLY IF the original run does not change when the three constants are divided by k (C04Grid.grid_homogeneous_run_iff, decidable condition ConstFree); statically: homogeneous on containers all of whose tracks are fixed-size (C04Grid.grid_homogeneous_partial). Scalable (Style Rat) of Model/Scale.lean scales Style.grid too — the lengths inside grid_template_rows/columns and grid_auto_rows/columns: fixed track sizes, fit-content(px) arguments, minmax bounds; not percentages, fr factors, repetition counts, placements (C04Grid.scale_scales_grid, scale_scales_grid_tracks) — and every grid theorem is stated with that one scale (C04.gscale of the lemma files is an abbreviation of it: C04Grid.gscale_eq_scale). The tree theorem is lifted to ALL trees — block, flexbox and grid containers, leaves, hidden subtrees; cache-free evaluator, the dispatch of TaffyTree — in the two strongest true forms (Props/C04Tree.lean, via the relational tree theorem C04Tree.tree_homogeneous_rel: two families of algorithms, one per side, related under scaling, C04.AlgsHomRel; Lemmas/ScaleEvalRel.lean): (a) UNCONDITIONAL, C04Tree.tree_homogeneous_joint_all_trees: for every tree, k > 0 and constants, the evaluator with the grid constants scaled by k on the k-scaled tree yields the k-scaled output and the k-scaled layouts of all nodes; at the real constants (C04Tree.tree_homogeneous_real_constants) the layout of the scaled tree computed with k·1, k·0.01, k·0.000001 is the scaled REAL layout, so the three constants are the only absolute lengths in the four layout algorithms; (b) partial, C04Tree.tree_homogeneous_all_trees_partial: for the REAL algorithms on both sides, on every tree all of whose grid containers with children outside display:none subtrees satisfy the static, decidable, input-independent condition C04Tree.GridFixedS (tree predicate C04Tree.GridFixedTree, decided by gridFixedTreeB; GridFixedS implies C04Grid.GridFixed for every input: C04Tree.gridFixedS_gridFixed; every NoGrid tree is a GridFixedTree) the real layout of the scaled tree is the scaled layout; what is missing is exactly the grid containers with intrinsic, flexible, percentage or implicit auto tracks or a zero-size auto-repetition, where the statement is false also at the tree level (C04Tree.tree_not_homogeneous_real, C04Tree.realAlgs_not_homogeneous). Examples at k = 4 and 1/4 on a tree with a block root, a flexbox child and a fixed-track grid child with items (C04Tree.exTree_layout, exTree_layout_times_4, exTree_layout_div_4) and at k = 16 on a tree with the THRESHOLD witness and an intrinsic grid (C04Tree.wTree_layout, wTree_layout_times_16_joint, wTree_layout_times_16_real). Known findings: grid THRESHOLD constants; 1px floor of zero-size auto-repetitions. No theorem relates f32 to rational arithmetic; with power-of-two factors every f32 operation commutes with the scaling exactly. Axioms: propext, Classical.choice, Quot.sound.',
     "technique": 'Lean 4 equivariance proofs (function level + induction over the evaluator) + metamorphic scaled tree pairs on the real TaffyTree',
-    "undischarged": ['AlgsHomogeneous for grid: FALSE (C04Grid.grid_not_homogeneous, C04Grid.grid_not_homogeneous_autorepeat; known findings); proved jointly in lengths and the three absolute constants (C04Grid.grid_homogeneous_joint), run by run under the exact condition C04Grid.ConstFree (C04Grid.grid_homogeneous_run_iff) and statically under C04Grid.GridFixed; the tree theorem is not lifted to trees with grid containers (Style.grid is not scaled by Scalable (Style Rat))'],
+    "undischarged": ['AlgsHomogeneous for grid: FALSE (C04Grid.grid_not_homogeneous, C04Grid.grid_not_homogeneous_autorepeat; known findings); proved jointly in lengths and the three absolute constants (C04Grid.grid_homogeneous_joint), run by run under the exact condition C04Grid.ConstFree (C04Grid.grid_homogeneous_run_iff) and statically under C04Grid.GridFixed; at the tree level accordingly: unconditional for all trees jointly in lengths and constants (C04Tree.tree_homogeneous_joint_all_trees), for the real algorithms on trees whose grid containers are fixed-track (C04Tree.tree_homogeneous_all_trees_partial), FALSE for the real algorithms on all trees (C04Tree.tree_not_homogeneous_real)'],
 }
 
 PROPS["C12"] = {
